@@ -56,6 +56,7 @@ func classifyRace(text string) (clause, sig string) {
 	program := false
 	inAccess := false
 	gotTop := false
+	gotProg := false
 	reports := 0
 	for _, ln := range lines {
 		l := strings.TrimSpace(ln)
@@ -84,12 +85,19 @@ func classifyRace(text string) (clause, sig string) {
 		}
 		if inAccess && !strings.HasPrefix(l, "/") && strings.Contains(l, "(") {
 			fn := l[:strings.LastIndex(l, "(")]
+			inProgram := strings.HasPrefix(fn, "github.com/jig/lisp") && !strings.Contains(fn, "/simhook.")
 			if !gotTop {
+				// the top-most frame; replaced below by the top-most frame inside the program, if any
 				frames = append(frames, fn)
 				gotTop = true
+				gotProg = false
 			}
-			if strings.HasPrefix(fn, "github.com/jig/lisp") && !strings.Contains(fn, "/simhook.") {
+			if inProgram {
 				program = true
+				if !gotProg {
+					frames[len(frames)-1] = fn
+					gotProg = true
+				}
 			}
 		}
 	}
